@@ -134,3 +134,111 @@ Example C06_nonvacuous_invalid :
   validate the_schema tat (Some [["map_string_string"; "a"]]) = code_invalid_argument /\
   validate the_schema tat (Some [["default_nested_message"; "corecursive"; "default_foreign_message"; "c"]]) = code_ok.
 Proof. vm_compute. repeat split; reflexivity. Qed.
+
+(* ---------------------------------------------------------------------------------------------------- *)
+(* NON-MUTATION as a theorem (second wave): an ownership-aware model.  Messages are trees whose message   *)
+(* structs carry the identity of their allocation (Msg/Tagged.v); two references alias where they share    *)
+(* an identity; [rebase r v] is what reference v shows after an operation has turned the graph it worked   *)
+(* on into r; [n] is the allocation counter ([below n v]: v existed when the call was made).               *)
+From SC Require Import Msg.Tagged Msg.TaggedProofs Msg.PathAlgebra Masks.Aliasing Masks.AliasingProofs
+  Masks.Update Masks.Options Masks.ReadOptionsProofs.
+
+(* the ownership-aware FilterClone computes the tree the plain model computes (panics included) *)
+Theorem C06_filter_clone_t_refines : forall sch ty m n t,
+  erase_outcome (filter_clone_t sch ty m n t) = filter_clone sch ty m (erase t).
+Proof. exact filter_clone_t_refines. Qed.
+Print Assumptions C06_filter_clone_t_refines.
+
+(* FilterClone with a non-nil mask: every message struct of the result is a new allocation, and every
+   message that existed before the call - the message passed in, the stored value, anything else - shows
+   after the call exactly what it showed before *)
+Theorem C06_filter_clone_never_mutates : forall sch ty ps n t r v,
+  filter_clone_t sch ty (Some ps) n t = TOk r ->
+  below n v ->
+  rebase r v = v /\ (forall i, In i (ids r) -> n <= i).
+Proof.
+  intros. split; [eapply filter_clone_never_mutates; eauto|eapply filter_clone_result_fresh; eauto].
+Qed.
+Print Assumptions C06_filter_clone_never_mutates.
+
+(* ... while with a nil mask the caller receives the very message passed in (for Value.Get: the stored one) *)
+Theorem C06_filter_clone_nil_is_the_source : forall sch ty n t, filter_clone_t sch ty None n t = TOk t.
+Proof. exact filter_clone_nil_is_the_source. Qed.
+
+(* Filter (in place) keeps only structs of its argument: a message sharing no struct with it is unaffected *)
+Theorem C06_filter_in_place_frame : forall sch ty m t r v,
+  filter_t sch ty m t = TOk r ->
+  (forall i, In i (ids v) -> ~ In i (ids t)) ->
+  rebase r v = v.
+Proof. exact filter_in_place_frame. Qed.
+Print Assumptions C06_filter_in_place_frame.
+
+(* the model is sensitive to the clone: with the shallow clone of seeded change C06-r3-1 (repeated message
+   elements shared) a read through repeated_foreign_message.c CHANGES the message read *)
+Theorem C06_shallow_clone_refuted :
+  let ty := "sc.go.test.TestAllTypes" in
+  let src := TM 1 [("repeated_foreign_message", TL [TM 2 [("c", TS (SInt 1)); ("d", TS (SInt 2))]])] in
+  let m := Some [["repeated_foreign_message"; "c"]] in
+  below 10 src /\
+  (exists r, filter_clone_shallow the_schema ty m 10 src = TOk r /\
+             erase r = VM [("repeated_foreign_message", VL [VM [("c", VS (SInt 1))]])] /\
+             rebase r src = TM 1 [("repeated_foreign_message", TL [TM 2 [("c", TS (SInt 1))]])]) /\
+  (exists r, filter_clone_t the_schema ty m 10 src = TOk r /\
+             erase r = VM [("repeated_foreign_message", VL [VM [("c", VS (SInt 1))]])] /\
+             rebase r src = src).
+Proof.
+  cbv zeta. split; [intros i Hi; simpl in Hi; destruct Hi as [<-|[<-|[]]]; lia|].
+  split; eexists; (split; [vm_compute; reflexivity|split; vm_compute; reflexivity]).
+Qed.
+
+(* READ OPTIONS (pkg/resource/opt.go): no read-mask option = nil mask; the LAST WithReadMask/WithReadPaths
+   decides; WithReadPaths with a path that is invalid for the type panics where the option is built and
+   otherwise yields a mask that Validate accepts *)
+Theorem C06_read_mask_of_opts : forall sch ty,
+  (forall opts, forallb (fun o => negb (is_mask_ropt o)) opts = true ->
+     compute_rreq sch ty opts = Some None) /\
+  (forall pre m post, compute_rreq sch ty pre <> None ->
+     forallb (fun o => negb (is_mask_ropt o)) post = true ->
+     compute_rreq sch ty (pre ++ OReadMask m :: post)%list = Some m) /\
+  (forall pre ps post, compute_rreq sch ty pre <> None -> fm_valid sch ty ps = true ->
+     forallb (fun o => negb (is_mask_ropt o)) post = true ->
+     compute_rreq sch ty (pre ++ OReadPaths ps :: post)%list = Some (Some ps)).
+Proof. exact read_mask_of_opts. Qed.
+Print Assumptions C06_read_mask_of_opts.
+
+Theorem C06_read_paths_option : forall sch ty pre ps post,
+  (fm_valid sch ty ps = false -> compute_rreq sch ty (pre ++ OReadPaths ps :: post)%list = None) /\
+  (forall m, forallb (fun o => negb (is_mask_ropt o)) post = true ->
+     compute_rreq sch ty (pre ++ OReadPaths ps :: post)%list = Some m ->
+     m = Some ps /\ validate sch ty m = code_ok).
+Proof.
+  intros. split; [apply read_paths_invalid_panics|intros; eapply read_paths_mask_valid; eauto].
+Qed.
+Print Assumptions C06_read_paths_option.
+
+(* a read through any option list that does not panic while the options are built never panics and returns
+   the projection by the effective mask *)
+Theorem C06_read_opts_projection : forall sch ty opts v m,
+  conforms sch ty v = true ->
+  compute_rreq sch ty opts = Some m ->
+  (forall ps, m = Some ps -> segs_ok ps = true /\ (forall p, In p ps -> p <> [])) ->
+  read_opts sch ty opts v = RRead (Ok (project_mask m v)).
+Proof.
+  intros sch ty opts v m Hc Hm Hseg. unfold read_opts. rewrite Hm. f_equal.
+  destruct m as [[|p ps]|]; try reflexivity.
+  destruct (Hseg _ eq_refl) as [H1 H2].
+  apply C06_filter_is_projection; auto. discriminate.
+Qed.
+Print Assumptions C06_read_opts_projection.
+
+(* the mask algebra the options are made of: Normalize is idempotent, its result strictly sorted without
+   nested or repeated paths, and it selects exactly what the list selected *)
+Theorem C06_normalize_algebra : forall l,
+  normalize_paths (normalize_paths l) = normalize_paths l /\
+  normal (normalize_paths l) /\ NoDup (normalize_paths l) /\
+  (forall p, covers (normalize_paths l) p <-> covers l p).
+Proof.
+  intros l. split; [apply normalize_idempotent|]. split; [apply normalize_is_normal|].
+  split; [apply normalize_NoDup|apply normalize_covers_iff].
+Qed.
+Print Assumptions C06_normalize_algebra.
